@@ -30,6 +30,7 @@ fn main() {
         "C01" => c01::run(&args),
         "C02" => c02::run(&args),
         "C02child" => c02::child_run(&args.rest),
+        "C02mw" => c02::child_mw(&args.rest),
         "C02reopen" => c02::child_reopen(&args.rest),
         "C03" => c03::run(&args),
         "C04" => c04::run(&args),
